@@ -35,8 +35,8 @@ META = {
         "known class orphan-arg-size>max_size: impls with a trait-reference argument of more than max_size type nodes (10 for the default SLG solver, 30 for the recursive one; Coq predicate size_known_class on the input): the solver gives up and the check accepts",
         "known class isupstream-builtin: IsUpstream(t) where the answer depends on a builtin type being upstream (Coq predicate up_known_class on the input)",
     ],
-    "quick_s": 40,
-    "thorough_s": 360,
+    "quick_s": 90,
+    "thorough_s": 600,
 }
 
 IMPORTS = ["Rules.Orphan"]
